@@ -8,6 +8,7 @@ import (
 
 	"github.com/zerx-lab/wordZero/pkg/document"
 
+	"verif/foreign"
 	"verif/sim"
 	"verif/sim/sched"
 	"verif/simrt"
@@ -87,6 +88,7 @@ func (c07) Gen(r *sim.Rand, c *sim.Case, tier string) {
 		}
 	}
 	c.Tasks = make([][]sim.Op, k)
+	commonFile, commonSeed, commonFlags, lastCommonTask, ncommon := !Wild && r.Chance(0.15), int(r.Uint64()>>44), int(r.Uint64())&foreign.FAllBits&^(foreign.FNumbering|foreign.FNoStyles), -1, 0
 	sharedStyle, sharedBase := !Wild && r.Chance(0.15), r.Intn(4)
 	for i, s := range slots {
 		g := world.NewGen(r.Fork())
@@ -110,7 +112,13 @@ func (c07) Gen(r *sim.Rand, c *sim.Case, tier string) {
 			}
 		}
 		var ops []sim.Op
-		if r.Chance(0.2) { // the document starts as the result of a Markdown conversion
+		if commonFile && s.task != lastCommonTask && ncommon < 3 {
+			// documents of different tasks start from ONE file of another producer, opened by each task for itself at its very start
+			// (the Opens overlap in the concurrent phase)
+			ops = append(ops, sim.Op{K: "foreign", D: s.slot, I: []int{commonSeed, commonFlags, 2, 1}}, sim.Op{K: "obs", D: s.slot, I: []int{0}})
+			lastCommonTask = s.task
+			ncommon++
+		} else if r.Chance(0.2) { // the document starts as the result of a Markdown conversion
 			if r.Bool() {
 				ops = append(ops, sim.Op{K: "md", D: s.slot, I: []int{r.Intn(32)}, S: []sim.Str{sim.Str(g.Markdown(Wild || i == listDoc))}})
 			} else { // from a file, through ConvertFile, with the caller's options or with none
